@@ -102,6 +102,7 @@ type node struct {
 	out    map[string]bool // method names the standard-library code called from here may call back
 	dyn    map[string]bool // signatures of function VALUES called from here (a variable, field or table element)
 	sig    string          // the node's own signature (functions, methods and function literals)
+	nondet map[string]bool // constructs whose outcome is not a function of the arguments: map iteration, goroutines, select, clocks, randomness, environment
 }
 
 func sigString(t types.Type) string {
@@ -127,6 +128,11 @@ var callbacks = map[string][]string{
 	"sort":   {"Len", "Less", "Swap"},
 	"fmt":    {"String", "GoString", "Error", "Format", "Write"},
 }
+
+// nondetPkgs: packages whose functions read something other than their arguments (clock, randomness, environment,
+// scheduler, file system, network).
+var nondetPkgs = map[string]bool{"time": true, "math/rand": true, "math/rand/v2": true, "crypto/rand": true, "os": true, "runtime": true,
+	"os/exec": true, "net": true, "net/http": true, "io/ioutil": true, "syscall": true, "unsafe": true, "reflect": false}
 
 func callbacksOf(fn *types.Func) []string {
 	p := fn.Pkg().Path()
@@ -310,7 +316,7 @@ func (w *walker) scanStale(b ast.Node) {
 func (w *walker) get(name string) *node {
 	n, ok := w.nodes[name]
 	if !ok {
-		n = &node{name: name, refs: map[string]bool{}, writes: map[string]bool{}, iface: map[string]bool{}, out: map[string]bool{}, dyn: map[string]bool{}}
+		n = &node{name: name, refs: map[string]bool{}, writes: map[string]bool{}, iface: map[string]bool{}, out: map[string]bool{}, dyn: map[string]bool{}, nondet: map[string]bool{}}
 		w.nodes[name] = n
 	}
 	return n
@@ -496,7 +502,16 @@ func (w *walker) body(n *node, b ast.Node) {
 			}
 		case *ast.IncDecStmt:
 			w.recordWrite(n, v.X)
+		case *ast.GoStmt:
+			n.nondet["go"] = true
+		case *ast.SelectStmt:
+			n.nondet["select"] = true
 		case *ast.RangeStmt:
+			if t := w.info.TypeOf(v.X); t != nil {
+				if _, isMap := t.Underlying().(*types.Map); isMap {
+					n.nondet["maprange:"+typeName(t)] = true
+				}
+			}
 			if v.Tok == token.ASSIGN {
 				if v.Key != nil {
 					w.recordWrite(n, v.Key)
@@ -633,6 +648,9 @@ func (w *walker) call(n *node, c *ast.CallExpr) {
 				}
 			}
 		} else if fn, ok := w.info.Uses[f.Sel].(*types.Func); ok && fn.Pkg() != nil && !inModule(fn.Pkg()) {
+			if nondetPkgs[fn.Pkg().Path()] {
+				n.nondet["call:"+fn.Pkg().Path()+"."+fn.Name()] = true
+			}
 			for _, m := range callbacksOf(fn) {
 				n.out[m] = true
 			}
@@ -845,6 +863,23 @@ func main() {
 			first = false
 			fmt.Fprintf(&sb, "(%d, %s, %s, %s, %s)", i, strconv.Quote(kind), strconv.Quote(owner), strconv.Quote(member), strconv.Quote(p[1]))
 			fmt.Fprintf(&facts, "write %s : %s [%s]\n", k, p[0], p[1])
+		}
+	}
+	sb.WriteString("]\n\n/-- constructs whose outcome is not a function of the arguments, per node: iteration over a map, `go`, `select`, calls into time / rand / os / runtime -/\ndef nondet : List (Nat × String) :=\n  [")
+	firstN := true
+	for i, k := range names {
+		var ns []string
+		for c := range nodes[k].nondet {
+			ns = append(ns, c)
+		}
+		sort.Strings(ns)
+		for _, c := range ns {
+			if !firstN {
+				sb.WriteString(", ")
+			}
+			firstN = false
+			fmt.Fprintf(&sb, "(%d, %s)", i, strconv.Quote(c))
+			fmt.Fprintf(&facts, "nondet %s : %s\n", k, c)
 		}
 	}
 	sb.WriteString("]\n\n/-- exported functions and methods (the API surface), as node indices -/\ndef exported : List Nat :=\n  [")
